@@ -142,10 +142,147 @@ def controlling_true(b, tm, block):
     return out
 
 
+def _scan_accepted(ctx, F, b, tm, push, cand, sol, flag, false_blocks, gsw):
+    """the candidate is rejected exactly when some accepted route is an exact duplicate of it or too similar to it: the scan over
+    the accepted routes read turn by turn, in `run` or in a helper extracted from it.  Returns None or what is wrong."""
+    DUP = K + "single_via_paths_algorithm::test_id_similarity"
+    SIM = RSF + "::test_similarity"
+    sims = [c for c in b.calls_deep(loops=True) if c.callee == SIM]
+    if len(sims) != 1:
+        return "expected one similarity test, found %d" % len(sims)
+    sim = sims[0]
+    if isinstance(sim, VirtualCallSite):
+        sb, inner_sim, via = sim.inner.body, sim.inner, sim.via
+        actuals = tuple(tm.operand(a, via.bb) for a in via.args)
+        sub = lambda t: substitute_args(t, actuals)
+    else:
+        sb, inner_sim, via = b, sim, None
+        sub = lambda t: t
+    C = lambda t: clean(sub(t))
+    lp = innermost_loop(sb, inner_sim.bb)
+    if lp is None:
+        return "the similarity test is not inside a loop over the accepted routes"
+    rows = [r for r in iteration_table(sb, lp[0], stop_at_exit=True) if r.kind != "diverge"]
+    if not rows or not all(r.conds for r in rows):
+        return "unreadable scan loop"
+    d0 = C(rows[0].conds[0][0])
+    if not (d0[0] == "discr" and d0[1][0] == "call" and re.search(r"::next$", d0[1][1]) and all(C(r.conds[0][0]) == d0 for r in rows)):
+        return "the scan is not driven by an iterator over the accepted routes"
+    ELEM = d0[1]
+    src = ELEM[2][0]
+    if not contains(src, lambda q: q == sol) or [x for x in calls_in(src) if re.search(r"Iterator>?::(take|skip|filter|step_by|rev|take_while|skip_while|filter_map)$", x[1])]:
+        return "the scan does not visit every accepted route: %s" % short(src)[:100]
+    stm = Terms(sb)
+    DV = None
+    for c in sb.calls():
+        if c.callee == DUP and c.bb in lp[1]:
+            t = C(stm.call_term(c.term, c.bb))
+            if set(t[2]) == {cand, ELEM}:
+                DV = t
+    if DV is None:
+        return "no exact-duplicate test of (candidate, accepted route) in the scan"
+    st = C(stm.call_term(inner_sim.term, inner_sim.bb))
+    a = st[2]
+    # configured function (the algorithm's `similarity` argument) and search instance (`si`), by type
+    targ = [i_ for i_ in range(1, b.argc + 1) if "RouteSimilarityFunction" in b.locals[i_]["ty"]]
+    siarg = [i_ for i_ in range(1, b.argc + 1) if b.locals[i_]["ty"].endswith("SearchInstance")]
+    if not (len(a) == 4 and targ and siarg and a[0] == ("arg", targ[0]) and a[3] == ("arg", siarg[0]) and contains(a[1], lambda q: q == cand) and contains(a[2], lambda q: q == ELEM)):
+        return "the similarity test is not applied to (candidate, accepted route) with the configured function and instance"
+    SV = st
+    n_rej = 0
+    for r in rows:
+        some = None
+        D = S = None
+        err = False
+        for dt, l, _ in r.conds:
+            d = C(dt)
+            names = set(l[1]) if isinstance(l, tuple) else {l}
+            if d == d0:
+                some = "Some" in names
+            elif d == DV:
+                D = cond_truth(l)
+            elif d == SV:
+                S = cond_truth(l)
+            elif d[0] == "discr" and contains(d, lambda q: q == SV) and names <= {"Break", "Err"}:
+                err = True
+        if r.kind == "back":
+            if not (D is False and S is False):
+                return "the scan moves on to the next accepted route without both tests having failed (duplicate=%s similar=%s)" % (D, S)
+            continue
+        if r.kind != "exit":
+            return "the scan contains an inner cycle"
+        edge = (r.blocks[-2], r.blocks[-1])
+        if err:
+            vals = region_value(sb, edge) if via is not None or True else []
+            if via is None:
+                # in `run`: the Err leaves run
+                pr = try_propagation(b, sim, tm)
+                if pr["kind"] != "propagated":
+                    return "Err of test_similarity not propagated"
+            elif try_propagation(sb, inner_sim, stm)["kind"] not in ("propagated", "returned") or try_propagation(b, via, tm)["kind"] != "propagated":
+                return "Err of test_similarity not propagated"
+            continue
+        if some is False:
+            # exhausted: nothing rejected here
+            if via is None:
+                if r.env.get(flag) is not None and clean(r.env[flag]) == ("const", "bool", False) or gsw not in b.reachable(start=r.blocks[-1], removed_blocks=list(false_blocks)):
+                    return "the candidate is rejected after all accepted routes passed both tests"
+            else:
+                vals = region_value(sb, edge)
+                if not vals or not all(clean(v) == ("agg", "std::result::Result", "Ok", (("0", ("const", "bool", False)),)) or clean(v) == ("const", "bool", False) for _, v in vals):
+                    return "the helper does not report `no match` after all accepted routes passed both tests"
+            continue
+        if not (D is True or S is True):
+            return "the scan stops at an accepted route although neither test matched (duplicate=%s similar=%s)" % (D, S)
+        n_rej += 1
+        if via is None:
+            # from where the scan is left, the gate of the push is reached only through a block that clears the flag
+            cleared = (r.env.get(flag) is not None and clean(r.env[flag]) == ("const", "bool", False)) or gsw not in b.reachable(start=r.blocks[-1], removed_blocks=list(false_blocks))
+            if not cleared:
+                return "a matching accepted route does not clear the acceptance flag"
+        else:
+            vals = region_value(sb, edge)
+            if not vals or not all(clean(v) == ("agg", "std::result::Result", "Ok", (("0", ("const", "bool", True)),)) or clean(v) == ("const", "bool", True) for _, v in vals):
+                return "the helper does not report a match for a duplicate / too similar accepted route"
+    if n_rej < 2:
+        return "expected a rejecting exit for the duplicate test and one for the similarity test"
+    if via is not None:
+        # the caller clears the flag exactly when the helper reports a match
+        with no_inline():
+            tm2 = Terms(b)
+            verdict = clean(tm2.call_term(via.term, via.bb))
+            hit = False
+            for fb in false_blocks:
+                for sbb, t, truth in controlling(b, tm2, fb):
+                    while t[0] == "un" and t[1] == "Not":
+                        t, truth = t[2], not truth
+                    if clean(t) == verdict and truth:
+                        hit = True
+        if not hit:
+            return "the acceptance flag is not cleared when the helper reports a match"
+    return None
+
+
+def controlling(b, tm, block):
+    """the bool conditions whose outcome is known when `block` runs: (switch block, condition term, its value)"""
+    out = []
+    for sbb, dt, names, t in switches(b, tm):
+        if names is not None:
+            continue
+        f, tr = bool_targets(t)
+        if tr is None or f is None or tr == f or sbb not in b.dom.get(block, ()):
+            continue
+        if b.dominates(tr, block) and not b.dominates(f, block):
+            out.append((sbb, nosite(deep_strip(dt)), True))
+        elif b.dominates(f, block) and not b.dominates(tr, block):
+            out.append((sbb, nosite(deep_strip(dt)), False))
+    return out
+
+
 def R2_single_via(ctx):
     """C13.R2 acceptance pipeline (single-via)"""
     F = ctx.F
-    ctx.rule("C13.R2", "single-via: solution[0] = backtrack(source, target, forward tree); a candidate is pushed only when loop-free, not a duplicate and dissimilar to every accepted route; via vertices are queued only if backtrackable in both trees; one pop per turn, exits on criteria / empty queue; result = take(k)", floor=11)
+    ctx.rule("C13.R2", "single-via: solution[0] = backtrack(source, target, forward tree); a candidate is pushed only when loop-free, not a duplicate and dissimilar to every accepted route; via vertices are queued only if backtrackable in both trees; one pop per turn, exits on criteria / empty queue; result = take(k)", floor=9)
     b = F.need(K + "single_via_paths_algorithm::run")
     tm = Terms(b)
     pushes = [c for c in b.calls() if c.callee and c.callee.startswith("std::vec::Vec::<T, A>::push") and innermost_loop(b, c.bb) is not None]
@@ -168,47 +305,14 @@ def R2_single_via(ctx):
         return
     flag, false_blocks, gsw = ga
     ctx.ok("push-gated", "flag local %d" % flag)
-    loopc = b.calls_to(OPS + "route_contains_loop")
-    dupc = b.calls_to(K + "single_via_paths_algorithm::test_id_similarity")
-    simc = b.calls_to(RSF + "::test_similarity")
-    reasons = {"loop": False, "similar": False}
+    reasons = {"loop": False}
     for fb in false_blocks:
-        ctl = controlling_true(b, tm, fb)
-        terms = [t for _, t in ctl]
-        for t in terms:
+        for _, t in controlling_true(b, tm, fb):
             if t[0] == "call" and t[1] == OPS + "route_contains_loop" and t[2][0] == cand:
                 reasons["loop"] = True
-            has_dup = contains(t, lambda s: s[0] == "call" and s[1].endswith("test_id_similarity")) or any(contains(x, lambda s: s[0] == "call" and s[1].endswith("test_id_similarity")) for x in terms)
-        # `duplicate || too_similar` inside a loop over all accepted routes; the clearing block itself has
-        # left the natural loop (break), so membership is decided by dominance of the loop head
-        for h, blocks in b.natural_loops():
-            nx = [c for c in b.calls() if c.func.get("method") == "next" and c.bb in blocks and innermost_loop(b, c.bb) == (h, blocks)]
-            if not nx or not dupc or not simc:
-                continue
-            recv = deep_strip(tm.operand(nx[0].args[0], nx[0].bb))
-            over_all = contains(recv, lambda s: s == sol) and not [x for x in calls_in(recv) if re.search(r"Iterator>?::(take|skip|filter|step_by|rev)$", x[1])]
-            if not over_all or not all(c.bb in blocks for c in dupc + simc) or not b.dominates(nx[0].bb, fb):
-                continue
-            hits = 0
-            for c in (dupc[0], simc[0]):
-                verdict = nosite(strip_try(deep_strip(tm.call_term(c.term, c.bb))))
-                for sbb, dt, names, t in switches(b, tm):
-                    if sbb in blocks and nosite(deep_strip(dt)) == verdict:
-                        f_, tr_ = bool_targets(t)
-                        if fb in b.reachable(start=tr_, removed_blocks=[nx[0].bb]) and fb not in b.reachable(start=f_, removed_blocks=[nx[0].bb, tr_]) or (fb in b.reachable(start=tr_, removed_blocks=[nx[0].bb])):
-                            hits += 1
-                        break
-            if hits == 2:
-                reasons["similar"] = True
     ctx.check(reasons["loop"], "reject:loop", "a candidate containing a loop is not rejected (flag cleared when route_contains_loop(candidate) is true)", push.where(), detail="route_contains_loop(candidate) => reject")
-    ctx.check(reasons["similar"], "reject:duplicate-or-similar", "the candidate is not compared (exact duplicate and similarity) with every already accepted route", push.where(), detail="for each accepted: duplicate || too_similar => reject")
-    if dupc and simc:
-        a = [nosite(deep_strip(tm.operand(x, dupc[0].bb))) for x in dupc[0].args]
-        ctx.check(a[0] == cand, "duplicate-test-on-candidate", "duplicate test is not applied to the candidate", dupc[0].where())
-        s = [nosite(deep_strip(tm.operand(x, simc[0].bb))) for x in simc[0].args]
-        ctx.check(contains(s[1], lambda x: x == cand) and s[3] == ("arg", 4) and unmut(s[0]) == ("arg", 3), "similarity-test-on-candidate", "similarity test is not applied to (candidate, accepted route) with the configured function", simc[0].where())
-        pr = try_propagation(b, simc[0], tm)
-        ctx.check(pr["kind"] == "propagated", "similarity-error", "Err of test_similarity not propagated", simc[0].where())
+    why = _scan_accepted(ctx, F, b, tm, push, clean(cand), clean(sol), flag, false_blocks, gsw)
+    ctx.check(why is None, "reject:duplicate-or-similar", "the candidate is not compared (exact duplicate and similarity) with every already accepted route: %s" % why, push.where(), detail="for each accepted: duplicate || too_similar => reject")
     # the two tests
     tid = F.need(K + "single_via_paths_algorithm::test_id_similarity")
     rows = [r for r in table(tid, max_paths=100000) if r.end == "return"]
@@ -239,8 +343,23 @@ def R2_single_via(ctx):
         a = [nosite(deep_strip(tm.operand(x, tcs[0].bb))) for x in tcs[0].args]
         okt = a[1] == ("field", ("arg", 1), "k") and a[2][0] == "call" and a[2][1].endswith("::len") and a[2][2][0] == nosite(sol) and b.dominates(tcs[0].bb, pops[0].bb)
     ctx.check(okt, "criteria-each-turn", "the termination criteria are not tested with (k, number of accepted routes) before every pop", b.where())
+    # result = the accepted routes cut to k: `solution.into_iter().take(k)` or `solution.truncate(k)` before it is returned
+    kf = ("field", ("arg", 1), "k")
     tk = [c for c in b.calls() if c.callee and itm(c.callee, "take")]
-    okk = len(tk) == 1 and nosite(deep_strip(tm.operand(tk[0].args[1], tk[0].bb))) == ("field", ("arg", 1), "k") and contains(deep_strip(tm.operand(tk[0].args[0], tk[0].bb)), lambda s: s == sol)
+    tr_ = [c for c in b.calls() if c.callee and c.callee.endswith("Vec::<T, A>::truncate")]
+    res = [x for x in subterms(clean(tm.return_term())) if x[0] == "agg" and x[1].endswith("SearchAlgorithmResult")]
+    routes = dict(res[0][3]).get("routes") if len(res) == 1 else None
+    okk = False
+    if routes is not None and len(tk) == 1 and not tr_:
+        tt = clean(tm.call_term(tk[0].term, tk[0].bb))
+        okk = clean(tm.operand(tk[0].args[1], tk[0].bb)) == kf and contains(clean(tm.operand(tk[0].args[0], tk[0].bb)), lambda q: q == clean(sol)) and contains(routes, lambda q: q == tt)
+    elif routes is not None and len(tr_) == 1 and not tk:
+        c = tr_[0]
+        ret_bbs = [bb for bb, blk in enumerate(b.blocks) if blk["term"]["k"] == "return"]
+        okk = clean(tm.operand(c.args[0], c.bb)) == clean(sol) and clean(tm.operand(c.args[1], c.bb)) == kf and innermost_loop(b, c.bb) is None and routes == clean(sol)
+        # on every path that builds the result
+        agg_bbs = [bb for bb, blk in enumerate(b.blocks) for st_ in blk["stmts"] if st_["k"] == "assign" and st_["rv"]["k"] == "agg" and st_["rv"].get("adt", "").endswith("SearchAlgorithmResult") and "routes" in (st_["rv"].get("fnames") or [])]
+        okk = okk and bool(agg_bbs) and all(b.dominates(c.bb, bb) for bb in agg_bbs)
     ctx.check(okk, "take-k", "the result is not the accepted routes truncated to k", b.where(), detail="solution.into_iter().take(k)")
 
 
@@ -286,12 +405,24 @@ def R3_yens(ctx):
     else:
         ctx.bad("spur-instance", "expected one SearchInstance construction, found %d" % len(aggs), b.where())
     # cut edge index
+    # (a loop that inserts under a guard, or cut_edges.extend(accepted.iter().filter(..).filter_map(..).map(..)))
     cuts = [c for c in b.calls() if c.callee and c.callee.startswith("std::collections::HashSet::<T, S, A>::insert")]
-    okc = len(cuts) == 1
+    exts = [c for c in b.calls() if c.callee and re.search(r"Extend<.*>>::extend$", c.callee) and "HashSet" in b.locals[root_local(b, c.args[0])]["ty"]] if not cuts else []
+    okc = len(cuts) + len(exts) == 1
     if okc:
-        v = nosite(deep_strip(tm.operand(cuts[0].args[1], cuts[0].bb)))
-        gets = [x for x in calls_in(v) if x[1] == "std::slice::<impl [T]>::get"]
-        okc = len(gets) == 1
+        gets = []
+        if cuts:
+            v = nosite(deep_strip(tm.operand(cuts[0].args[1], cuts[0].bb)))
+            gets = [x for x in calls_in(v) if x[1] == "std::slice::<impl [T]>::get"]
+            okc = contains(clean(v), lambda q: q[0] == "field" and q[2] == "edge_id")
+        else:
+            base, steps = chain_steps(F, tm.operand(exts[0].args[1], exts[0].bb))
+            names = [n for n, _ in steps]
+            okc = not [n for n in names if n in ("take", "skip", "step_by", "rev", "take_while", "skip_while")]
+            vals = [v_ for _, v_ in steps if v_ is not None]
+            gets = [x for v_ in vals for x in calls_in(v_) if x[1] == "std::slice::<impl [T]>::get"]
+            okc = okc and any(contains(v_, lambda q: q[0] == "field" and q[2] == "edge_id") for v_ in vals)
+        okc = okc and len(gets) == 1
         if okc:
             A = Arith(F)
             idx = A.ev(gets[0][2][1])
